@@ -96,7 +96,7 @@ CHECKS = {
               leg("TestC15Nats", quick=(25, 4), thorough=(400, 8), timeout_s=3000, prefixes=["c15n."])],
         coverage_extra={"exhaustive_subspaces": "c15.cut enumerates every byte offset (0..len) of the multi-frame stream shapes x {EOF, I/O error} completely (quick: 1 shape, thorough: 5 shapes); c15.history is sampled"},
         level="fault_enumeration",
-        technique="model-based property testing (rapid) of open/fail/reopen/close histories with fault injection on a scripted byte stream + exhaustive enumeration of cut offsets; reference model of the close state machine and monitor policy",
+        technique="model-based property testing (rapid) of open/fail/reopen/close histories with fault injection on a scripted byte stream + exhaustive enumeration of cut offsets; reference model of the close state machine and monitor policy; third leg: Open/Close/IsOpen histories of the NATS client transport against a private broker that is shut down and restarted (model of the close state)",
         rule=("Histories of up to 23 steps over the adapter transport on a scripted stream with a recording BaseFTransportMonitor (MaxReopenAttempts 0..4, waits 1..6 ms): "
               "Open, Close, IsOpen, Request, fail(EOF | I/O error | unrecoverable frame | write failure; between frames or inside a frame), failNextOpens(n), sleep. "
               "Non-trivial: >=2 failures, or a failure and a Close. Distinct: sha256 of the history. The cut leg enumerates every byte offset of multi-frame streams x {EOF, I/O error}."),
@@ -218,7 +218,7 @@ CHECKS = {
               # the model as dumped by -gen json: an annotation written on one type reference appears exactly once
               leg("TestC10JSONView", module="idl", quick=(300, 2), thorough=(5000, 8), timeout_s=3000, prefixes=["c10."])],
         level="exploration",
-        technique="property-based testing (rapid): generated IDL models rendered with generated lexical variation, parsed by the real parser and compared field by field with the model (round trip)",
+        technique="property-based testing (rapid): generated IDL models rendered with generated lexical variation, parsed by the real parser and compared field by field with the model (round trip); second leg: the model as dumped by -gen json (an annotation written on one type reference occurs exactly once)",
         rule=("Valid multi-file IDL models (includes, namespaces, typedefs, enums with explicit/implicit values, constants incl. lists/maps, structs/unions/exceptions with ids, requiredness, defaults, annotations, docstrings, "
               "services with extends/oneway/args/throws, scopes with prefixes and variables) rendered with drawn lexical choices: //, #, /* */ and /**@ */ comments in every whitespace position, ',' ';' or no separators, "
               "';' / newline / EOF statement ends, ' and \" literals, whitespace inside container types, identifier shapes (snake, SCREAMING, initialisms, digits). "
@@ -306,7 +306,7 @@ CHECKS = {
               # exactly-once when the connection is lost after the handler ran (HTTP, keep-alive connection reused)
               leg("TestC03HTTPLoss", quick=(60, 2), thorough=(1500, 4), timeout_s=1800, prefixes=["c03h."])],
         level="exploration",
-        technique="property-based testing (rapid) of generated Go clients, processors, publishers and subscribers for generated IDL programs, driven by reflection over in-memory, TCP, HTTP and NATS transports; oracle = recorded handler invocations and model-derived value trees",
+        technique="property-based testing (rapid) of generated Go clients, processors, publishers and subscribers for generated IDL programs, driven by reflection over in-memory, TCP, HTTP and NATS transports; oracle = recorded handler invocations and model-derived value trees; second leg: sequential HTTP calls whose connection is lost after the handler ran (handler count per call = 1, caller gets an error)",
         rule=("Per shard a batch of 6 generated programs is compiled to Go and linked with stub handlers emitted from the generated interfaces; cases: (service method incl. inherited through extends in the same file or across includes, oneway, void, throws) x "
               "argument tuples drawn from the model x handler outcome {return value, each declared exception, undeclared error, TApplicationException} x transport {in-memory, TCP adapter + FSimpleServer, HTTP, NATS} x protocol {binary, compact, JSON}; "
               "scope operations are published and delivered over an in-memory broker. Non-trivial: a non-primitive argument, a throws clause, an inherited method or an outcome other than plain success. Distinct: sha256 of the case."),
